@@ -128,7 +128,7 @@ def rule_panics(run, fx, rule, select, floors, floor_n=200):
         msg = "explicit panic site (%s %s %s) is neither discharged by a dominating check nor audited" % (s.cls, s.what, s.payload)
         if s.debug_only:
             msg += " [debug builds only]"
-        run.fail(rule, s.key(), msg, s.loc(), ledger="explicit_panic")
+        run.fail(rule, s.key(), msg, s.loc(), ledger="explicit_panic", alt_keys=fx.alt_keys(s.body, s.key()))
     if floors:
         run.floor(rule, "explicit panic sites", n, floor_n)
     return n
